@@ -18,7 +18,7 @@ for p in props:
         'evidence_file': 'evidence/%s.json' % p['id'],
         'replay_cmd_template': './check replay {path}',
         'engine': 'govc',
-        'level_claimed': {'category': 'proof', 'text': c['text'], 'design_ref': 'DESIGN.md section 4 ' + p['id']},
+        'level_claimed': {'category': c.get('category', 'proof'), 'text': c['text'], 'design_ref': 'DESIGN.md Part I section I.5 (row ' + p['id'] + '), I.6, I.7'},
         'level_note': c['note'],
         'technique': 'contract-based deductive verification: contracts on the real functions (comment files under build tag verif), weakest-precondition style path VCs generated from go/ssa of the working tree, discharged by z3/cvc5',
     })
